@@ -31,7 +31,7 @@ EnvT == WE("env", {"root", "sub", "w_colonsp"}, {"default", "rel", "abs", "cwdsu
 
 \* main world: every --config class x every initial content, both Go packages and two odd strings
 Main == W("main", {"root", "sub", "w_colonsp", "w_brace"}, AllCfgs, AllInits)
-MainQ == W("main", {"sub", "w_colonsp"}, AllCfgs, AllInits)
+MainQ == W("main", {"sub", "w_colonsp"}, AllCfgs \ {"reldot", "eqform"}, AllInits)     \* the two spelling variants: thorough only
 
 \* worlds whose module path is itself YAML-significant: the package key `true`, `123`, ... must be written
 \* quoted for the plain run to find the package
@@ -53,7 +53,7 @@ Odd11 == {"w_yes", "w_float", "w_crlf", "w_nbsp"}
 Odd12 == {"w_ls", "w_del", "w_pipes", "w_tpl"}
 Odd13 == {"w_leadnl", "w_tabml", "w_lsml", "w_nlonly"}
 Odd14 == {"w_dslash", "w_dotrel", "w_upper", "w_trailsl"}
-StrWorld(id, s) == W(id, s \cup {"sub"}, {"default", "rel"}, {"absent"})
+StrWorld(id, s) == W(id, s \cup {"sub"}, {"rel"}, {"absent"})
 StrWorlds == {StrWorld("s1", Odd1), StrWorld("s2", Odd2), StrWorld("s3", Odd3), StrWorld("s4", Odd4),
               StrWorld("s5", Odd5), StrWorld("s6", Odd6), StrWorld("s7", Odd7), StrWorld("s8", Odd8),
               StrWorld("s9", Odd9), StrWorld("s10", Odd10), StrWorld("s11", Odd11), StrWorld("s12", Odd12), StrWorld("s13", Odd13), StrWorld("s14", Odd14)}
